@@ -850,3 +850,52 @@ B('f_c12_chain_builder_loop_reversed_in_place_heap_store_line', ['C12'], 'R12.a'
   (S, _BCS_OLD_HEAD, _CARRIED_HEAD + "        tails.append('%sfuncs[%s].calls = 1\\n' % (_INDENT * (cur + 1), cur))\n" + _CARRIED_OK + _REV_TAIL))
 B('f_c12_chain_builder_loop_reversed_in_place_global_line', ['C12'], 'R12.a',
   (S, _BCS_OLD_HEAD, _CARRIED_HEAD + "        defs.append('%sglobal last_level\\n%slast_level = %s\\n' % (_INDENT * (cur + 1), _INDENT * (cur + 1), cur))\n" + _CARRIED_OK + _REV_TAIL))
+
+# the framework core follows a piece of itself that was split off into a private module and is imported back: the per-request
+# class, its methods and the ownership of what its fields hold are judged like before the move
+VER = 'clastic/_version.py'
+_DS_DEF = ('class DispatchState(object):\n'
+           '    """The every request handled by an :class:`Application` creates a\n'
+           '    :class:`DispatchState`, which is used to track relevant state in\n'
+           '    the routing progress, including which routes were attempted and\n'
+           '    what exceptions were raised, if any.\n'
+           '\n'
+           '\n'
+           '    .. note::\n'
+           '\n'
+           '      Objects of this type are constructed internally and are not really\n'
+           '      part of the Clastic API, except that they are one of the built-in\n'
+           '      injectables.\n'
+           '    """\n'
+           '\n'
+           '    def __init__(self):\n'
+           '        self.exceptions = []\n'
+           '        self.allowed_methods = set()\n'
+           '        self.attempted_routes = []\n'
+           '\n'
+           '    def add_route(self, route):\n'
+           '        self.attempted_routes.append(route)\n'
+           '\n'
+           '    def add_exception(self, exception):\n'
+           '        self.exceptions.append(exception)\n'
+           '\n'
+           '    def update_methods(self, methods):\n'
+           '        if methods:\n'
+           '            self.allowed_methods.update(methods)\n'
+           '\n'
+           '    def __repr__(self):\n'
+           '        args = (self.__class__.__name__, self.exceptions, self.allowed_methods)\n'
+           "        return '<%s exceptions=%r allowed_methods=%r>' % args\n")
+_VER_ANCHOR = "version_info = (24, 0, 1, 'dev')\n"
+
+
+def _moved_dispatch_state(ds_def):
+    return ((A, _DS_DEF + '\n\n', ''), (A, _IMP_UT, _IMP_UT + 'from ._version import DispatchState\n'), (VER, _VER_ANCHOR, ds_def + '\n\n' + _VER_ANCHOR))
+
+
+T('f_c12_dispatch_state_moved_into_private_module', ['C12', 'C13'], *_moved_dispatch_state(_DS_DEF))
+B('f_c12_dispatch_state_moved_adopt_then_ior', ['C12'], 'R12.a',
+  *_moved_dispatch_state(_DS_DEF.replace(_UM, '        if not methods:\n            return\n        if not self.allowed_methods:\n            self.allowed_methods = methods\n'
+                                              '            return\n        self.allowed_methods |= methods\n')))
+B('f_c12_dispatch_state_moved_class_level_list', ['C12'], 'R12.a',
+  *_moved_dispatch_state(_DS_DEF.replace('    def __init__(self):\n        self.exceptions = []\n', '    exceptions = []\n\n    def __init__(self):\n')))
